@@ -311,6 +311,13 @@ class PymbolicToASTMapper(CachedMapper):
             # Python's own ASTs have no negative constants: ast.unparse
             # prints Constant(-3)**a as -3 ** a.
             return ast.UnaryOp(ast.USub(), ast.Constant(-expr, None))
+        elif isinstance(expr, complex) and repr(expr).startswith("-"):
+            # Likewise for a negative purely imaginary constant (-0.5j):
+            # written as 0.0 - 0.5j, which has the same value, signed zeros
+            # included.
+            return ast.BinOp(
+                    ast.Constant(expr.real, None), ast.Sub(),
+                    ast.Constant(complex(0, -expr.imag), None))
         else:
             return ast.Constant(expr, None)
 
